@@ -1,11 +1,13 @@
 #!/bin/bash
 # usage: tools/run_all.sh <tier> ID...   — runs checks sequentially, logs to /tmp/vf-runs/
-mkdir -p /tmp/vf-runs
+# after a thorough run the evidence is also kept as evidence/thorough/<ID>.json
+mkdir -p /tmp/vf-runs /verif/evidence/thorough
 tier=$1; shift
 for id in "$@"; do
   s=$(date +%s)
-  timeout 7200 /verif/check $id --tier $tier > /tmp/vf-runs/$id.$tier.log 2>&1
+  timeout 10800 /verif/check $id --tier $tier > /tmp/vf-runs/$id.$tier.log 2>&1
   rc=$?
   e=$(date +%s)
-  echo "$id $tier rc=$rc wall=$((e-s))s :: $(grep -E '^(HELD|VIOLATION|INCONCLUSIVE)' /tmp/vf-runs/$id.$tier.log | head -3 | tr '\n' ' ')" >> /tmp/vf-runs/summary.log
+  echo "$id $tier seed=${VERIF_SEED:-1} rc=$rc wall=$((e-s))s :: $(grep -E '^(HELD|VIOLATION|INCONCLUSIVE)' /tmp/vf-runs/$id.$tier.log | head -3 | tr '\n' ' ')" >> /tmp/vf-runs/summary.log
+  if [ "$tier" = thorough ] && [ -f /verif/evidence/$id.json ]; then cp /verif/evidence/$id.json /verif/evidence/thorough/$id.json; fi
 done
